@@ -191,6 +191,9 @@ def units(prop, tier):
 
 
 # ====================================================================================================================
+# STATUS ON THE REPAIRED TREE (fix 93cf66d4: `raise ValueError(` in _EMSA_PKCS1_V1_5_ENCODE): the finding below verifies now (19/19).
+# spec.der.encode_length was removed from spec/der.py (it called an undefined `minlen`); the definite minimal length octets are now
+# spec.rfc8017.der_len (X.690 8.1.3, with the uninterpreted octet count len_octets and its three defining facts).
 # GENUINE FINDING (natively confirmed, obligation left registered: C04 ..._EMSA_PKCS1_V1_5_ENCODE.raises_only.TypeError, 2 paths)
 #   _EMSA_PKCS1_V1_5_ENCODE raises TypeError("DigestInfo is too long for this RSA key") when emLen < tLen + 11; verify() only
 #   catches ValueError and sign() catches nothing, so with a key too short for the hash BOTH let a TypeError escape where C04
